@@ -25,6 +25,49 @@ func genReplayCacheHistory(seed uint64, tier string) *spec.RunSpec {
 			h.Ops = append(h.Ops, spec.HOp{Op: "dup", Item: r.Intn(items), Tag: r.Pick(0, 0, 1, 1, 2)})
 		}
 	}
+	if r.Bool(0.5) {
+		// Directed histories: bursts of new entries that fill the cache to about its capacity
+		// right before / right after an instant at which a generation can expire, a short
+		// sleep across that instant, a few more new entries, then the recent ones again.
+		s.Profile = "c06-cache-history-boundary"
+		h.Ops = nil
+		var T, lastBurst int64
+		fresh := 1000
+		for phase, phases := 0, 3+r.Intn(6); phase < phases; phase++ {
+			base := (T/interval + 1) * interval
+			if r.Bool(0.4) && lastBurst+interval > T {
+				base = lastBurst + interval
+			}
+			off := int64(r.Pick(-2000, -1000, -1000, -1, 1, 1000, int(interval/10)))
+			if r.Bool(0.2) {
+				off -= interval / 2
+			}
+			if d := base + off - T; d > 0 {
+				h.Ops = append(h.Ops, spec.HOp{Op: "sleep", SleepUs: d})
+				T += d
+			}
+			lastBurst = T
+			k := capN + r.Pick(-1, 0, 0, 1, 2)
+			var burst []int
+			for i := 0; i < k; i++ {
+				burst = append(burst, fresh)
+				h.Ops = append(h.Ops, spec.HOp{Op: "dup", Item: fresh, Tag: r.Pick(0, 0, 1)})
+				fresh++
+			}
+			if d := int64(r.Pick(0, 1, 1000, 2000, 3000, int(interval/10))); d > 0 {
+				h.Ops = append(h.Ops, spec.HOp{Op: "sleep", SleepUs: d})
+				T += d
+			}
+			for i, n := 0, r.Intn(3); i < n; i++ {
+				h.Ops = append(h.Ops, spec.HOp{Op: "dup", Item: fresh, Tag: r.Pick(0, 0, 1)})
+				fresh++
+			}
+			for i, n := 0, 1+r.Intn(2); i < n && len(burst) > 0; i++ {
+				it := burst[len(burst)-1-r.Intn(min(len(burst), 2))]
+				h.Ops = append(h.Ops, spec.HOp{Op: "dup", Item: it, Tag: r.Pick(0, 0, 2)})
+			}
+		}
+	}
 	s.Hist = h
 	return s
 }
@@ -76,13 +119,14 @@ func init() {
 	c06 := props["C06"]
 	endToEnd := c06.gen
 	c06.gen = func(master uint64, idx int, tier string) *spec.RunSpec {
-		if idx%3 == 2 {
+		// three cheap cache histories for every end-to-end run
+		if idx%4 != 0 {
 			return genReplayCacheHistory(runSeed(master, "C06h", idx), tier)
 		}
-		return endToEnd(master, idx, tier)
+		return endToEnd(master, idx/4, tier)
 	}
-	c06.quickRuns = 144
-	c06.thoroughRuns = 3000
+	c06.quickRuns = 384
+	c06.thoroughRuns = 8000
 	_ = time.Second
 }
 
